@@ -6,6 +6,7 @@ def handlers : List (String × (String → Json → Except String Json)) := [
   ("store", Aeic.Store.handle),
   ("merge", Aeic.Merge.handle),
   ("c20", Aeic.ThreadGuard.handle),
+  ("c18", Aeic.Config.handle),
   ("c19", Aeic.Bada.handle),
   ("c13", Aeic.Schedule.handle),
   ("c11", Aeic.Dispatch.handle),
